@@ -277,6 +277,7 @@ def plan(tier, seed):
                     specs.append({'name': 'bfs-%s-%d%d-%d' % (name, i, ax, k), 'mode': 'bfs', 'mesh': name,
                                   'depth': depth, 'prefix': [['b', i, ax]], 'mod': [k, K],
                                   'check_root': (i, ax, k) == (0, 0, 0)})
+    specs.append({'name': 'suite-mesh-tests', 'mode': 'suite', 'files': ['src/mesh_test.py', 'src/error_estimator_test.py']})
     n_r = 16 if tier == 'quick' else 64
     for k in range(n_r):
         specs.append({'name': 'random-%d' % k, 'mode': 'random', 'rseed': seed * 1000 + k,
@@ -285,6 +286,9 @@ def plan(tier, seed):
 
 
 def run_shard(spec, acc, focus):
+    if spec['mode'] == 'suite':
+        from .suite import run_suite
+        return run_suite(acc, focus, spec['files'])
     if spec['mode'] == 'bfs':
         run_bfs(spec, acc, focus)
     else:
